@@ -130,7 +130,20 @@ func VF_C14_K3_Path() {
 	tail := zzvf.Str("tail", n)
 	path := api + tail
 	zzvf.Reach("c14k3-start")
-	if zzvf.Choose("fn", 2) == 0 {
+	fn := zzvf.Choose("fn", 3)
+	if fn == 2 {
+		// a path that does not start with the apiPath (any bytes of the
+		// same length in its place) maps to no resource at all
+		foreign := zzvf.Str("prefix", len(api))
+		zzvf.Assume(zzvf.Not(zzvf.StrEq(foreign, api)))
+		zzvf.Reach("c14k3-foreign-prefix")
+		rid := PathToRID(foreign+tail, "", api)
+		zzvf.Assert(zzvf.StrEq(rid, ""), "path-outside-the-apipath-maps-to-nothing")
+		rid2, action := PathToRIDAction(foreign+tail, "", api)
+		zzvf.Assert(zzvf.And(zzvf.StrEq(rid2, ""), zzvf.StrEq(action, "")), "path-outside-the-apipath-maps-to-no-call")
+		return
+	}
+	if fn == 0 {
 		rid := PathToRID(path, "", api)
 		want, ok := vfRefPathToRID(tail)
 		if !ok {
@@ -366,4 +379,50 @@ func VF_C14_K4_CallPath() {
 			zzvf.Assert(false, "only-access-and-call-requests-are-made")
 		}
 	}
+}
+
+func init() {
+	zzvf.Register("VF_C16_K2_APIPath", VF_C16_K2_APIPath)
+}
+
+// VF_C16_K2_APIPath: the configured apiPath is normalised by the real
+// Config.SetDefault / prepare to end in exactly one slash (the default when
+// empty), and a GET on <apiPath>test/model is then routed to the resource
+// test.model by the real apiHandler; hrefs carry the same prefix.
+func VF_C16_K2_APIPath() {
+	cands := []string{"", "/api", "/api/", "/", "/v1/api", "/v1/api/", "/a"}
+	in := cands[zzvf.Choose("apipath", len(cands))]
+	// one more symbolic byte in front of the (optional) trailing slash
+	b := zzvf.Byte("b")
+	zzvf.Assume(zzvf.And(b >= 'a', b <= 'c'))
+	if in != "" && in != "/" && zzvf.Choose("extend", 2) == 1 {
+		if in[len(in)-1] == '/' {
+			in = in[:len(in)-1] + string([]byte{b}) + "/"
+		} else {
+			in = in + string([]byte{b})
+		}
+	}
+	cfg := Config{APIPath: in, NoHTTP: true}
+	cfg.SetDefault()
+	zzvf.Reach("c16k2-start")
+	zzvf.Assert(cfg.prepare() == nil, "config-accepted")
+	want := in
+	if want == "" {
+		want = DefaultAPIPath
+	}
+	if want[len(want)-1] != '/' {
+		want += "/"
+	}
+	zzvf.Assert(zzvf.StrEq(cfg.APIPath, want), "apipath-normalised-to-one-trailing-slash")
+	w := vfNewWorld(cfg)
+	rec, cl := w.vfHTTP("GET", want+"test/model", "", "", http.Header{})
+	w.settle()
+	zzvf.Assert(cl != nil && rec.status == 0, "resource-path-under-the-apipath-is-routed")
+	found := false
+	for _, q := range w.mq.reqs {
+		if q.subject == "access.test.model" {
+			found = true
+		}
+	}
+	zzvf.Assert(found, "resource-path-under-the-apipath-reaches-the-resource")
 }
